@@ -269,22 +269,19 @@ def check_unwrapping(ctx):
         # predict on top of it
         fp = prog.method(cname, "predict")
         ctx.saw_fn(fp)
-        src = " ".join(ast.unparse(s) for s in fp.node.body if not (isinstance(s, ast.Expr)
-                                                                   and isinstance(s.value, ast.Constant)))
-        okp = "expectations = self.predict_expectations(contexts)" in src and \
-            "if isinstance(expectations, dict): return argmax(expectations)" in " ".join(src.split()) .replace(
-                "\n", " ") or _predict_form(fp)
+        okp = _predict_form(fp)
         n += 1
         ctx.check(bool(okp), "R8.5", "%s.predict maps dict -> arm, list -> list of arms" % cname, fp.node, fp,
                   construct="def %s.predict" % cname)
     # (ii) list-or-single unwrapping of the row-wise implementations
+    from .pattern import match as _pm
     for cname, meth, var in (("BaseMAB", "_parallel_predict", "predictions"),
                              ("_Linear", "_vectorized_predict_context", "predictions")):
         fn = prog.method(cname, meth)
         ctx.saw_fn(fn)
         rets = _ret_exprs(fn)
-        want = "%s if len(%s) > 1 else %s[0]" % (var, var, var)
-        ok = len(rets) == 1 and ast.unparse(rets[0].value) == want
+        want = "<list> if len(<list>) > 1 else <list>[0]"
+        ok = len(rets) == 1 and _pm("return _P_ if len(_P_) > 1 else _P_[0]", rets[0]) is not None
         n += 1
         ctx.check(ok, "R8.5", "%s.%s returns the list for m > 1 rows and its only element for one row" %
                   (cname, meth), rets[0] if rets else fn.node, fn, "expected `return %s`" % want)
@@ -292,18 +289,19 @@ def check_unwrapping(ctx):
 
 
 def _predict_form(fp):
+    from .pattern import match
     body = [s for s in fp.node.body if not (isinstance(s, ast.Expr) and isinstance(s.value, ast.Constant))]
-    if len(body) != 2 or not isinstance(body[0], ast.Assign) or not isinstance(body[1], ast.If):
+    if len(body) != 2:
         return False
-    if ast.unparse(body[0].value) != "self.predict_expectations(contexts)":
+    b = match("_X_ = self.predict_expectations(contexts)", body[0])
+    if b is None:
         return False
-    name = ast.unparse(body[0].targets[0])
-    iff = body[1]
-    if ast.unparse(iff.test) != "isinstance(%s, dict)" % name:
-        return False
-    a = ast.unparse(iff.body[0]) if iff.body else ""
-    b = ast.unparse(iff.orelse[0]) if iff.orelse else ""
-    return a == "return argmax(%s)" % name and b.startswith("return [argmax(") and b.endswith("for exp in %s]" % name)
+    return match("""
+if isinstance(_X_, dict):
+    return argmax(_X_)
+else:
+    return [argmax(_V_) for _V_ in _X_]
+""", body[1], b) is not None
 
 
 def _unwrap_idiom(body):
@@ -382,36 +380,40 @@ class MustAssign(PathWalker):
 
 
 def check_row_outputs(ctx, F):
-    """every _predict_contexts assigns predictions[index] on every path of its row loop (AST, path based)."""
+    """every _predict_contexts allocates one slot per row, assigns slot[index] on every path of its row loop and
+    returns the list (names of locals are free)."""
+    from .pattern import find, match
     prog = ctx.prog
     n = 0
     for f in prog.all_functions():
         if f.name != "_predict_contexts" or f.is_trivial():
             continue
         loops = [s for s in f.node.body if isinstance(s, ast.For)]
-        if not loops:
-            ctx.undecided("R8.5", "%s has no row loop" % f.qualname, f.node, f, construct="def " + f.qualname)
+        alloc, ab = find("_P_ = [None] * len(contexts)", f.node)
+        if not loops or alloc is None:
+            ctx.undecided("R8.5", "%s: row loop / result list not recognised" % f.qualname, f.node, f,
+                          construct="def " + f.qualname)
             continue
+        P = ab["_P_"]
         loop = loops[-1]
         idx = ast.unparse(loop.target.elts[0]) if isinstance(loop.target, ast.Tuple) else None
 
         def must(stmts):
             for s in stmts:
                 if isinstance(s, ast.Assign) and isinstance(s.targets[0], ast.Subscript) and \
-                        ast.unparse(s.targets[0].value) == "predictions" and ast.unparse(s.targets[0].slice) == idx:
+                        ast.unparse(s.targets[0].value) == P and ast.unparse(s.targets[0].slice) == idx:
                     return True
                 if isinstance(s, ast.If) and must(s.body) and must(s.orelse):
                     return True
             return False
         n += 1
-        ctx.check(must(loop.body), "R8.5", "%s assigns predictions[index] on every path of the row loop" % f.qualname,
-                  loop, f, construct="for ... in enumerate(contexts) of " + f.qualname)
+        ctx.check(must(loop.body), "R8.5", "%s assigns the row's result slot on every path of the row loop" %
+                  f.qualname, loop, f, construct="row loop of " + f.qualname)
         rets = _ret_exprs(f)
-        ctx.check(len(rets) == 1 and ast.unparse(rets[0].value) == "predictions", "R8.5",
-                  "%s returns the per-row list" % f.qualname, rets[0] if rets else f.node, f)
-        allocs = [s for s in f.node.body if isinstance(s, ast.Assign) and ast.unparse(s.targets[0]) == "predictions"]
-        ctx.check(bool(allocs) and ast.unparse(allocs[0].value) == "[None] * len(contexts)", "R8.5",
-                  "%s allocates one slot per row" % f.qualname, allocs[0] if allocs else f.node, f)
+        ctx.check(len(rets) == 1 and ast.unparse(rets[0].value) == P, "R8.5",
+                  "%s returns the per-row list" % f.qualname, rets[0] if rets else f.node, f,
+                  construct="return of " + f.qualname)
+        ctx.ok("R8.5", "%s allocates one slot per row" % f.qualname, alloc, f, construct="allocation in " + f.qualname)
     ctx.floor("R8.5", "_predict_contexts implementations", n, 8)
 
 
